@@ -40,6 +40,8 @@ def cases(tier, seed):
                 cs.append({'t': 'object', 'kind': kind, 'key': key, 'hs': hs})
     cs.append({'t': 'confusion'})
     cs.append({'t': 'header_isolation'})
+    for sname in (['ed25519_0', 'rsa1024_0'] if tier == 'quick' else ['ed25519_0', 'rsa1024_0', 'ecdsa_p256_0', 'dsa1024_0']):
+        cs.append({'t': 'sigkinds', 'signer': sname})
     # corruption sweeps: three blocks, split in position ranges
     for blk in ('sig', 'msg', 'pub'):
         for part in range(8):
@@ -252,6 +254,29 @@ def run_case(ctx, d):
             compare_loads(ctx, d['kind'], o, text, '%s/%s/h%d' % (d['kind'], d['key'], d['hs']))
         else:
             ctx.observe('non_ascii_header_load_not_judged')
+        ctx.nontrivial(d)
+    elif t == 'sigkinds':
+        # a signature packet on its own is a SIGNATURE block whatever the signature is about (document, certification, revocation, binding ...)
+        from .. import sigwork
+        for kind in sigwork.KINDS:
+            if kind.startswith('literal') or kind.startswith('cleartext'):
+                continue
+            with warnings.catch_warnings():
+                warnings.simplefilter('ignore')
+                tr = sigwork.pgpy_triple(d['signer'], kind, 'SHA256')
+            sg = tr.sig
+            text = str(sg)
+            ctx.count('evaluations')
+            ctx.count('signature_kinds_armored')
+            where = 'sig kind %s/%s' % (kind, d['signer'])
+            try:
+                dd = armor.dearmor(text)
+            except wire.Malformed as e:
+                ctx.fail('armor-unreadable', {'where': where, 'err': str(e)})
+                continue
+            if dd['kind'] != 'SIGNATURE' or dd['data'] != bytes(sg) or not dd['crc_ok']:
+                ctx.fail('armor-label-or-payload', {'where': where, 'label': dd['kind'], 'same_payload': dd['data'] == bytes(sg)})
+            compare_loads(ctx, 'sig', sg, text, where)
         ctx.nontrivial(d)
     elif t == 'header_isolation':
         _header_isolation(ctx, pgpy)
